@@ -75,6 +75,10 @@ def set_strategy(tier):
         tight = draw(st.integers(0, 3)) == 0
         for _ in range(draw(st.integers(6, 12)) if tight else draw(st.integers(1, 5))):
             lines = draw(st.lists(line_strategy(), min_size=1, max_size=4))
+            if draw(st.integers(0, 3)) == 0:
+                # a text node may end in blanks (readers return such nodes)
+                k = draw(st.integers(0, len(lines) - 1))
+                lines[k] = lines[k] + draw(st.sampled_from([" ", "  "]))
             caps.append({"lines": lines, "dur": draw(st.integers(20, 200)),
                          "slack": draw(st.sampled_from([0, 1, 2, 3, 4, 5, 30, 300])),
                          "sub": draw(st.integers(0, 33000))})
@@ -165,6 +169,8 @@ def _match_rows(line, rows, what):
         require(used < len(rows), lambda: f"{what}: rows {rows} end before the line {line!r} is complete")
         row = rows[used]
         require(len(row) <= 32, lambda: f"{what}: row of {len(row)} columns: {row!r}")
+        # (blanks after the text of a row are harmless as long as the row stays within 32 columns)
+        row = row.rstrip() or row
         require(rest.startswith(row), lambda: f"{what}: row {row!r} does not continue the line {rest!r}")
         used += 1
         after = rest[len(row):]
@@ -235,7 +241,7 @@ def check_set(case, rec):
         g = scr["groups"][0]
         require(1 <= g["row"] <= 15 and g["row"] + len(g["lines"]) - 1 <= 15, f"{what}: rows outside 1-15")
         rows = ["".join(ch for ch, _, _ in line) for line in g["lines"]]
-        lines = model.cue_lines_model(cue)
+        lines = [ln.rstrip() for ln in model.cue_lines_model(cue)]
         k = 0
         for ln in lines:
             k += _match_rows(ln, rows[k:], what)
